@@ -56,6 +56,10 @@ pub struct PlaceCase {
     /// installations
     #[serde(default)]
     pub early: bool,
+    /// synthetic targets: first fake another function that lives in the same page (same
+    /// injector, default placement), then install the fake under test
+    #[serde(default)]
+    pub sibling_first: bool,
 }
 
 #[derive(Serialize, Deserialize, Clone, Debug, Default)]
@@ -133,6 +137,8 @@ pub struct PlaceObs {
     pub mmap_calls: u64,
     #[serde(default)]
     pub priors: u8,
+    #[serde(default)]
+    pub sibling_faked: bool,
     /// value returned to the call made from the flush hook (None = no such call was made)
     #[serde(default)]
     pub early_value: Option<u64>,
@@ -246,6 +252,7 @@ pub fn execute(c: &PlaceCase) -> PlaceObs {
     let reals = targets::real_targets();
     // ---- target
     let mut _target_arena: Option<Arena> = None;
+    let mut sibling: Option<usize> = None;
     let target = match &c.target {
         TargetSel::RealAsync(_) => unreachable!(),
         TargetSel::Real(i) => {
@@ -270,6 +277,10 @@ pub fn execute(c: &PlaceCase) -> PlaceObs {
                 a.put_ret_id(addr + 16 * k, 0x6100 + k as u32);
             }
             a.put_ret_id(addr, id);
+            if c.sibling_first && (*off as usize % PAGE) >= 0x200 {
+                a.put_ret_id(base + 0x100, 0x6200);
+                sibling = Some(base + 0x100);
+            }
             a.seal();
             _target_arena = Some(a);
             targets::synthetic_target(addr, if *boolean { Class::B } else { Class::U }, id as u64, format!("synth@{addr:#x}"))
@@ -333,6 +344,17 @@ pub fn execute(c: &PlaceCase) -> PlaceObs {
     // ---- earlier installations on the same function (default placement)
     crate::worker::phase("prior");
     let mut inj = ip::sut(InjectorPP::new);
+    if let Some(sib) = sibling {
+        let t2 = targets::synthetic_target(sib, Class::U, 0x6200, "sibling".into());
+        let r = std::panic::catch_unwind(std::panic::AssertUnwindSafe(|| ip::sut(|| targets::install(&mut inj, &t2, Kind::Raw, 1))));
+        if r.is_err() {
+            o.status = "discarded".into();
+            o.why = format!("the installation on the sibling was refused: {}", crate::worker::last_panic());
+            let _ = std::panic::catch_unwind(std::panic::AssertUnwindSafe(|| ip::sut(|| drop(inj))));
+            return o;
+        }
+        o.sibling_faked = true;
+    }
     for (kind, k) in c.prior.iter().take(4) {
         let kinds = targets::legal_kinds(target.class);
         let kind = if kinds.contains(kind) { *kind } else { kinds[*k as usize % kinds.len()] };
@@ -564,6 +586,8 @@ pub fn strategy() -> impl Strategy<Value = PlaceCase> {
         };
         let prior = if matches!(target, TargetSel::RealAsync(_)) { vec![] } else { prior };
         let early = early && prior.is_empty() && !matches!(target, TargetSel::RealAsync(_));
-        PlaceCase { target, tramp, fake, callers, prior, early }
+        // (derived from the case: a quarter of the synthetic targets get a faked sibling first)
+        let sibling_first = matches!(&target, TargetSel::Synth { page, .. } if (page >> 44) % 4 == 0);
+        PlaceCase { target, tramp, fake, callers, prior, early, sibling_first }
     })
 }
